@@ -170,6 +170,8 @@ def run(ctx):
     from pv.ref import c55_lie as L
 
     warnings.filterwarnings("ignore")
+    from pv.ref.c53_limit import limit_repeats
+    limit_repeats(ctx)
     la = qp.liealg
 
     def mk_ps(sent, relabel=None):
